@@ -59,14 +59,14 @@ TClock ==
 -----------------------------------------------------------------------------
 (* Classification of a status that differs from the reference.             *)
 
-StateErr == {"BAD_STATEID", "OLD_STATEID", "OPENMODE", "STALE_STATEID", "EXPIRED", "STALE_CLIENTID", "BADSESSION"}
+StateErr == {"BAD_STATEID", "OLD_STATEID", "OPENMODE", "STALE_STATEID", "EXPIRED"}
 
 Classify(op, want, got) ==
   IF op \in {"LOCK", "LOCKT"} /\ want = "OK" /\ got = "DENIED" THEN "C20:lock-denied-without-conflicting-lock"
   ELSE IF op \in {"LOCK", "LOCKT"} /\ want = "DENIED" /\ got = "OK" THEN "C20:conflicting-lock-granted"
   ELSE IF want \in StateErr /\ got = "OK" THEN "C18:state-id-honoured-outside-its-file-client-or-sequence"
   ELSE IF op = "FREE_STATEID" /\ want = "LOCKS_HELD" /\ got = "OK" THEN "C20:lock-state-freed-while-locks-held"
-  ELSE IF op = "PUTFH" /\ want = "OK" THEN "C18:open-file-not-reachable-by-handle"
+  ELSE IF op = "PUTFH-open-unlinked" /\ want = "OK" THEN "C18:open-file-not-reachable-by-handle"
   ELSE "NC:status-differs-from-reference"
 
 Status(op) == IF reply'.st = Line.st THEN "ok" ELSE Classify(op, reply'.st, Line.st)
@@ -226,9 +226,10 @@ TDupHang ==
 
 TPanic ==
   /\ IsEvent("panic")
-  /\ Skip(IF \E j \in 1 .. Len(Line.ops) : Line.ops[j] \in {"LOCK", "LOCKT", "LOCKU"} THEN "C20:server-panic"
-          ELSE IF Len(Line.ops) = 0 \/ Line.ops = <<"SEQUENCE">> THEN "C19:server-panic"
-          ELSE "C18:server-panic")
+  /\ Skip(IF Len(Line.ops) = 0 \/ Line.ops = <<"SEQUENCE">> THEN "C19:server-panic"
+          ELSE IF \E j \in 1 .. Len(Line.ops) : Line.ops[j] \in {"LOCK", "LOCKT", "LOCKU"}
+            THEN "C20:server-panic-in-compound-ending-with-" \o Line.ops[Len(Line.ops)]
+          ELSE "C18:server-panic-in-compound-ending-with-" \o Line.ops[Len(Line.ops)])
   /\ KeepT
 
 TAnomaly ==
@@ -244,7 +245,11 @@ CanOp == Line.x \in Ctxs /\ Running(Line.x)
 NoStep == Skip("NC:harness-operation-outside-running-compound")
 
 TPutRootFH == OpLine("PUTROOTFH") /\ IF CanOp THEN PutRootFH(Line.x) /\ verdict' = Status("PUTROOTFH") ELSE NoStep
-TPutFH     == OpLine("PUTFH") /\ IF CanOp THEN PutFH(Line.x, Line.fh) /\ verdict' = Status("PUTFH") ELSE NoStep
+TPutFH     == OpLine("PUTFH") /\
+                IF CanOp THEN /\ PutFH(Line.x, Line.fh)
+                              /\ verdict' = Status(IF Line.fh \in Files /\ fst[Line.fh] = "unlinked" /\ InPool(oofs, Line.fh)
+                                                   THEN "PUTFH-open-unlinked" ELSE "PUTFH")
+                ELSE NoStep
 TLookup    == OpLine("LOOKUP") /\ IF CanOp THEN Lookup(Line.x, Line.name) /\ verdict' = Status("LOOKUP") ELSE NoStep
 TGetFH     == OpLine("GETFH") /\
                 IF CanOp THEN /\ GetFH(Line.x)
